@@ -81,6 +81,11 @@ func EncryptX25519(pubKey *[32]byte, msg []byte) []byte {
 func DecryptX25519(privKey, pubKey *[32]byte, encrypted []byte) ([]byte, error) {
 	var epk [32]byte
 	var nonce [24]byte
+	// a sealed box starts with the 32-byte ephemeral public key followed by the
+	// poly1305 tag; anything shorter cannot be a ciphertext
+	if len(encrypted) < len(epk)+box.Overhead {
+		return nil, ErrX25519DecryptionFailed
+	}
 	copy(epk[:], encrypted[:32])
 
 	nonceWriter, _ := blake2b.New(24, nil)
